@@ -1,8 +1,134 @@
-(** C08.  Only statements; proofs in Proofs/LogPolicy.v. *)
+(** C08: ignored names / clients and un-anonymised addresses never reach the
+    query log or the statistics.  Only statements; proofs in Proofs/LogPolicy.v.
+    The ignore engines are oracles ([e_qign], [e_sign] : normalised name -> bool). *)
 From AGH Require Import Base.Run Model.ClientIndex Model.LogPolicy Proofs.LogPolicy.
 Local Open Scope N_scope.
 
+(** After ANY history of queries (each under its own configuration, ignore
+    lists, registry, DHCP table, anonymisation setting) and flushes: every
+    record in the memory buffer or the file stems from a query whose normalised
+    name the ignore list in force did not match, whose client (looked up by
+    ClientID, then by the REAL address) was not marked, and carries the masked
+    address if anonymisation was on. *)
+Theorem C08_ignored_name_never_stored : forall evs e,
+  In e (all_log (run_log evs)) ->
+  exists ev q, In (LQuery ev q) evs /\ e = log_entry ev q /\
+    e_qign ev (fst (fst e)) = false /\
+    qlog_client_ignored (e_ix ev) (e_dhcp ev) (ids_of q) = false /\
+    (e_anon ev = true -> snd (fst e) = anonymize (fst (q_addr q)) /\ masked (snd (fst e))).
+Proof. exact log_records_ok. Qed.
+Print Assumptions C08_ignored_name_never_stored.
+
+Theorem C08_ignored_never_counted : forall evs s,
+  In s (st_stats (run_log evs)) ->
+  exists ev q, In (LQuery ev q) evs /\ s = stat_entry ev q /\
+    e_sign ev (fst (fst s)) = false /\
+    stats_client_counted (e_ix ev) (e_dhcp ev) (ids_of q) = true /\
+    (e_anon ev = true -> snd s = [] \/ (snd s = anonymize (fst (q_addr q)) /\ masked (snd s))).
+Proof. exact stat_records_ok. Qed.
+Print Assumptions C08_ignored_never_counted.
+
+(** The log and the statistics hold exactly the records of the queries that
+    passed the tests, in order (nothing else is ever written). *)
+Theorem C08_records_exact : forall evs,
+  all_log (run_log evs) = logged evs /\ st_stats (run_log evs) = counted evs.
+Proof. exact run_log_exact. Qed.
+Print Assumptions C08_records_exact.
+
+(** Single-step forms, for both anonymisation settings ([ev] is arbitrary). *)
 Theorem C08_ignored_name_not_logged : forall ev q st,
   e_qign ev (normalize (q_name q)) = true -> st_mem (process ev q st) = st_mem st.
 Proof. exact ignored_name_not_logged. Qed.
 Print Assumptions C08_ignored_name_not_logged.
+
+Theorem C08_ignored_name_not_counted : forall ev q st,
+  e_sign ev (normalize (q_name q)) = true -> st_stats (process ev q st) = st_stats st.
+Proof. exact ignored_name_not_counted. Qed.
+Print Assumptions C08_ignored_name_not_counted.
+
+Theorem C08_ignored_client_not_logged : forall ev q st,
+  qlog_client_ignored (e_ix ev) (e_dhcp ev) (ids_of q) = true -> st_mem (process ev q st) = st_mem st.
+Proof. exact ignored_client_not_logged. Qed.
+Print Assumptions C08_ignored_client_not_logged.
+
+Theorem C08_ignored_client_not_counted : forall ev q st,
+  stats_client_counted (e_ix ev) (e_dhcp ev) (ids_of q) = false -> st_stats (process ev q st) = st_stats st.
+Proof. exact ignored_client_not_counted. Qed.
+Print Assumptions C08_ignored_client_not_counted.
+
+(** Relation to the request precedence of C04.  The full statement
+    [ignored_client_never_stored_statement] (the client that [acf_find]
+    attributes the request to is marked => nothing recorded) is REFUTED by the
+    code as it is (known finding C08-maclike-clientid-resolved-as-mac) ... *)
+Theorem C08_ignored_client_never_stored_refuted : ~ ignored_client_never_stored_statement.
+Proof. exact ignored_client_never_stored_refuted. Qed.
+Print Assumptions C08_ignored_client_never_stored_refuted.
+
+(** ... and holds whenever the ClientID is not also the spelling of a stored MAC. *)
+Theorem C08_ignored_client_never_stored_partial : forall ev q st u c,
+  find_by_cid (e_ix ev) [] = None ->
+  clientid_not_a_stored_mac (e_ix ev) q ->
+  acf_find (e_ix ev) (e_dhcp ev) (q_cid q) (q_addr q) = Some u -> deref (e_ix ev) u = Some c ->
+  (c_ignore_qlog c = true -> st_mem (process ev q st) = st_mem st) /\
+  (c_ignore_stats c = true -> st_stats (process ev q st) = st_stats st).
+Proof. exact ignored_client_never_stored_partial. Qed.
+Print Assumptions C08_ignored_client_never_stored_partial.
+
+Example C08_partial_premises_satisfiable :
+  find_by_cid wit_ix [] = None /\
+  clientid_not_a_stored_mac wit_ix (wit_query [] None) /\
+  acf_find wit_ix (fun _ => None) [] ([192;168;1;5], []) = Some 1 /\
+  process (wit_env true) (wit_query [] None) empty_store = empty_store /\
+  process (wit_env false) (wit_query [] None) empty_store = empty_store /\
+  all_log (process (wit_env true)
+             {| q_name := [79;75;46]; q_any := false; q_addr := ([10;1;2;3], []); q_cid := []; q_cid_mac := None |}
+             empty_store) = [([111;107], [10;1;0;0], [])].
+Proof. exact partial_premises_satisfiable. Qed.
+
+(** The reading of the repaired defect #9 (decide on the anonymised address)
+    lets the ignored client through; the model's does not. *)
+Example C08_anonymised_ids_reading_refuted :
+  qlog_client_ignored wit_ix (fun _ => None) (ids_of_anonymised (wit_env true) (wit_query [] None)) = false /\
+  qlog_client_ignored wit_ix (fun _ => None) (ids_of (wit_query [] None)) = true.
+Proof. exact anonymised_ids_reading_refuted. Qed.
+
+(** What GET /control/querylog returns (memory and file entries alike): only
+    stored records, whose name the CURRENT ignore list does not match and
+    whose client, looked up from what is stored (ClientID, recorded address),
+    is not currently marked; with anonymisation currently on the reported
+    address is masked, whenever it was recorded. *)
+Theorem C08_search_rechecks : forall ev mac_of st e,
+  In e (search_report ev mac_of st) ->
+  exists e0, In e0 (all_log st) /\ e = reported ev e0 /\
+    e_qign ev (fst (fst e)) = false /\
+    qlog_client_ignored (e_ix ev) (e_dhcp ev) (stored_ids mac_of e0) = false /\
+    (e_anon ev = true -> masked (snd (fst e))).
+Proof. exact search_results_ok. Qed.
+Print Assumptions C08_search_rechecks.
+
+Theorem C08_stats_report_rechecks : forall ev mac_of st,
+  (forall d, In d (stats_domains ev st) -> e_sign ev d = false) /\
+  (forall s, In s (stats_clients ev mac_of st) ->
+     In s (st_stats st) /\ stats_client_counted (e_ix ev) (e_dhcp ev) [stat_key_id mac_of s] = true).
+Proof. exact stats_report_ok. Qed.
+Print Assumptions C08_stats_report_rechecks.
+
+(** The mask: the low 16 bits of an IPv4 address (also embedded in IPv6), the
+    low 80 bits of an IPv6 address are zero; byte-list facts. *)
+Theorem C08_addresses_masked : forall ip, masked (anonymize ip) /\ length (anonymize ip) = length ip.
+Proof. exact addresses_masked. Qed.
+Print Assumptions C08_addresses_masked.
+
+Theorem C08_mask_v4 : forall ip, length ip = 4%nat ->
+  exists a b c d, ip = [a; b; c; d] /\ anonymize ip = [a; b; 0; 0].
+Proof. exact anonymize_v4. Qed.
+Print Assumptions C08_mask_v4.
+
+Theorem C08_mask_v6 : forall ip, length ip = 16%nat -> is_4in6 ip = false ->
+  anonymize ip = firstn 6 ip ++ repeat 0 10.
+Proof. exact anonymize_v6. Qed.
+Print Assumptions C08_mask_v6.
+
+Theorem C08_mask_idempotent : forall ip, anonymize (anonymize ip) = anonymize ip.
+Proof. exact anonymize_idempotent. Qed.
+Print Assumptions C08_mask_idempotent.
